@@ -101,12 +101,12 @@ Definition spec_check (forget bound : Z) (capacity : N) (log : list lentry) : bo
 From LV Require Import model.Fetcher.
 
 (* Who may be asked for what, kept WITHOUT looking at the fetcher's tables: (peer, id) enters when
-   peer announces id and id is reported interesting; every pair of id leaves when id is reported
+   peer announces id (id is in the batch) and id is reported interesting (id is in the answer); every pair of id leaves when id is reported
    received, or reported not interesting at a timer pass the loop really takes. *)
 Definition ghost := list (N * N).
 Definition ghost_step (st : state) (g : ghost) (ev : event) : ghost :=
   match ev with
-  | ENotify peer _ _ interested _ _ => map (fun id => (peer, id)) interested ++ g
+  | ENotify peer ids _ interested _ _ => map (fun id => (peer, id)) (filter (fun id => memN id ids) interested) ++ g
   | EReceived ids => filter (fun pi => negb (memN (snd pi) ids)) g
   | ETick => g
   | ETimer interested _ _ => if timer_chan st then filter (fun pi => memN (snd pi) interested) g else g
@@ -121,6 +121,12 @@ Fixpoint safe_run (c : cfg) (st : state) (g : ghost) (tr : list (Z * event)) : P
     (forall p ids id, In (p, ids) (snd (step true c st now ev)) -> In id ids -> In (p, id) g') /\
     safe_run c (fst (step true c st now ev)) g' tr'
   end.
+
+(* callback.OnlyInterested answers with ids of the batch it was asked about (the fetcher itself
+   does not check this: it stores and requests whatever the callback returns) *)
+Definition answers_sublist (tr : list (Z * event)) : Prop :=
+  forall now peer ids atime interested susp scan,
+    In (now, ENotify peer ids atime interested susp scan) tr -> forall id, In id interested -> In id ids.
 
 Definition cfg_wf (c : cfg) : Prop := (0 <= c_arrive8 c <= c_arrive c)%Z.
 
